@@ -7,6 +7,7 @@ import YkDrv.QueueDrv
 import YkDrv.CoreDrv
 import YkDrv.SortDrv
 import YkDrv.PlaceDrv
+import YkDrv.RecoverDrv
 import YkDrv.ConfDrv
 import YkDrv.UgmDrv
 import YkDrv.PreemptDrv
@@ -18,6 +19,7 @@ structure DrvState where
   queue : QueueSt := {}
   core : CoreSt := {}
   place : PlaceSt := {}
+  recover : RecoverSt := {}
   ugm : UgmSt := {}
   preempt : PreSt := {}
 
@@ -34,6 +36,7 @@ def dispatch (st : DrvState) (j : Json) : Except String (DrvState × String) := 
   | "node" => let (r, v) ← nodeStep st.node j; pure ({ st with node := r }, v)
   | "preempt" => let (r, v) ← preemptStep st.preempt j; pure ({ st with preempt := r }, v)
   | "ugm" => let (r, v) ← ugmStep st.ugm j; pure ({ st with ugm := r }, v)
+  | "recover" => let (r, v) ← recoverStep st.recover j; pure ({ st with recover := r }, v)
   | "place" => let (r, v) ← placeStep st.place j; pure ({ st with place := r }, v)
   | _ => pure (st, "bad-op")
 
